@@ -416,6 +416,14 @@ def format_specs(f):
             spec = ''
             if n.format_spec is not None:
                 spec = ''.join(str(c.value) for c in n.format_spec.values if isinstance(c, ast.Constant))
+            elif isinstance(n.value, ast.Name):
+                # `{year}` without a specification: a name bound to a piece of TEXT of fixed length (str(x)[2:], an earlier '{:03d}'.format)
+                # is inserted as it is - its width was decided where it was made
+                defs = [st.value for st in ast.walk(f.node) if isinstance(st, ast.Assign) and len(st.targets) == 1 and isinstance(st.targets[0], ast.Name)
+                        and st.targets[0].id == n.value.id]
+                if defs and all((isinstance(d_, ast.Subscript) and isinstance(d_.value, ast.Call) and getattr(d_.value.func, 'id', '') == 'str')
+                                or (isinstance(d_, ast.Call) and isinstance(d_.func, ast.Attribute) and d_.func.attr in ('format', 'strftime', 'zfill')) for d_ in defs):
+                    continue
             out.append((spec, n))
         if isinstance(n, ast.Call) and isinstance(n.func, ast.Attribute) and n.func.attr == 'strftime' and len(n.args) == 1 and isinstance(n.args[0], ast.Constant) \
                 and isinstance(n.args[0].value, str):
